@@ -279,5 +279,27 @@ PROPS["C02"] = {
     ],
 }
 
+PROPS["C05"] = {
+    "quick_secs": 14,
+    "thorough_secs": 420,
+    "release_leg": True,
+    "totality": True,
+    "min_evaluations": 500000,
+    "technique": "totality + well-formedness monitor: hostile byte strings lifted by all 7 translators x both unsupported-instruction policies under catch_unwind; harness-written IL well-formedness checker and guard-determinism evaluator judge every result; dead/hung workers are attributed to the in-flight input",
+    "rule": "uniform random bytes (x86: 1-15 bytes, prefixed/two-byte opcodes, 8-48 byte streams; fixed-width ISAs: 1-3 words incl. lengths not a "
+            "multiple of 4), class templates of the C02/C03 generators with a random bit flipped, at addresses 0, page-straddling, around 2^32 and near "
+            "(but not wrapping) 2^64; thorough adds a stratified sweep of every value of the top 16 bits x 4 random low halves for the 5 fixed-width "
+            "translators. Checked per result: every expression sort-correct, Assign/Load/Store/Branch/guard widths, entry and exit present with exit "
+            "reachable, edges join existing blocks, exactly one enabled guard per block and in the successor list (exhaustive when the guards read "
+            "<= 12 bits of scalars, else 48 corner-biased valuations), re-lifting gives the same result. Distinct = (translator, policy, input kind, instructions lifted).",
+    "level_text": "Sampled byte strings per translator configuration; the 2^32 word spaces are sampled (thorough: stratified), not swept.",
+    "level_note": "trusts the well-formedness rules in harness/src/c05.rs and refeval.rs; blocks that would wrap around the 2^64 address space are not generated (the IL has no wrap-around program counter)",
+    "assumptions": [
+        "lift addresses are at least 64 KiB below 2^64",
+        "load/store addresses and branch targets must be 1..64 bits wide; equality with the architecture word size is not judged",
+        "a guard that divides by zero under some valuation is not judged for that valuation",
+    ],
+}
+
 # properties not claimed, with the reason (everything else not in PROPS is 'not built yet')
 NOT_CLAIMED = {}
